@@ -7,6 +7,7 @@
 		g_n             = nondet_size_t();                   \
 		g_b             = nondet_u8();                       \
 		g_exit          = nondet_size_t();                   \
+		g_base          = nondet_ptr();                      \
 		g_w[0] = nondet_u8(); g_w[1] = nondet_u8(); g_w[2] = nondet_u8(); g_w[3] = nondet_u8(); g_w[4] = nondet_u8(); g_w[5] = nondet_u8(); g_w[6] = nondet_u8(); g_w[7] = nondet_u8(); g_w[8] = nondet_u8(); g_w[9] = nondet_u8(); g_w[10] = nondet_u8(); \
 		g_free_calls    = nondet_size_t();                   \
 		g_alloc_ok      = nondet_size_t();                   \
